@@ -52,7 +52,9 @@ void ses_stop(void *self, _Bool clearTimer) { g_stopped = 1; }
 void ses_state_change(void *self, unsigned before, unsigned after) { }
 unsigned atomic_exchange_u(unsigned *a, unsigned v, int mo) { unsigned o = *a; *a = v; return o; }
 _Bool ses_enforce(void *self, unsigned seqnum, const void *msg) { return nondet_bool(); }      /* the gate (K-seq); its verdict is not used by these handlers */
-_Bool inmsg_get_testreqid(const void *msg, struct fstr_m *to) { to->_value = g_inbound_testreqid; return 1; }
+struct msg_m g_inbound, g_inbound_hdr;                /* the inbound message (its body carries TestReqID) and its header part (which does not) */
+struct msg_m *msg_Header(const struct msg_m *m) { return &g_inbound_hdr; }
+_Bool inmsg_get_testreqid(const void *msg, struct fstr_m *to) { if (msg != (const void *)&g_inbound) return 0; to->_value = g_inbound_testreqid; return 1; }
 void fstr_ctor0(struct fstr_m *f) { f->_value = 0; }
 const long *fstr_call(const struct fstr_m *f) { return &f->_value; }
 '''
@@ -97,9 +99,9 @@ void h_tick(void)
 void h_test_request(void)
 {
   struct FIX8_Session s; struct conn_m c; mk_session(&s, &c);
-  g_inbound_testreqid = nondet_long(); int dummy_msg;
+  g_inbound_testreqid = nondet_long(); __CPROVER_assume(g_inbound_testreqid != 0);          /* a TestRequest carries a non-empty TestReqID */
   __exc = 0;
-  session_handle_test_request(&s, nondet_uint(), &dummy_msg);
+  session_handle_test_request(&s, nondet_uint(), &g_inbound);
   __CPROVER_assert(g_sent_n == 1 && g_sent_kind[0] == K_HB && g_sent_id[0] == g_inbound_testreqid, "C22.test_request_answered_with_heartbeat_carrying_its_id");
   VACUITY_PROBE();
 }
@@ -149,6 +151,7 @@ UNIT = dict(
             SES + '::log': dict(c='ses_log', sig='bool (const std::string &, FIX8::Logger::Level, const char *, const unsigned int) const'),
             SES + '::stop': 'ses_stop', SES + '::state_change': 'ses_state_change', SES + '::do_state_change': 'session_do_state_change',
             SES + '::enforce': 'ses_enforce',
+            'FIX8::Message::Header': 'msg_Header',
             'FIX8::Message::get': dict(c='inmsg_get_testreqid', sig='bool (FIX8::test_request_id &) const'), 'FIX8::MessageBase::get': dict(c='inmsg_get_testreqid', sig='bool (FIX8::test_request_id &) const'),
             'FIX8::test_request_id::Field': 'fstr_ctor0', 'FIX8::Field<std::basic_string<char>, 112>::Field': 'fstr_ctor0',
             'FIX8::Field<std::basic_string<char>, 112>::operator()': 'fstr_call', 'FIX8::test_request_id::operator()': 'fstr_call',
